@@ -44,7 +44,7 @@ Print Assumptions C04_malformed_document_is_an_error.
    from the input size) *)
 Example C04_nonvacuous :
   match api_decode (B "[{""op"":""test"",""path"":""/a"",""value"":[null]},{""op"":""replace"",""path"":"""",""value"":null},{""op"":""add"",""path"":""/0"",""value"":1}]") with
-  | Some p => api_apply (mkOpts true 0 false false true None) [] p (B "{""a"":[null]}") = RErr (Some 2%nat) EMissing
+  | Some p => api_apply (mkOpts true 0 false false true [] None) [] p (B "{""a"":[null]}") = RErr (Some 2%nat) EMissing
   | None => False
   end.
 Proof. vm_compute. reflexivity. Qed.
